@@ -110,6 +110,9 @@ fn tokens_payload(class: usize, len: usize, rng: &mut Rng) -> Vec<u8> {
 
 pub const CRAFT_TARGET: i64 = 1;
 pub const CRAFT_SHAPE: i64 = 2;
+/// aux[0] = wanted number of dark modules of the final symbol (needs forced version, level, mask); the payload is
+/// found by search (craft::payload_for_dark_count) when the job is materialised
+pub const CRAFT_DARK: i64 = 3;
 
 #[derive(Clone, Debug, Default)]
 pub struct Job {
@@ -209,6 +212,27 @@ impl Job {
             (None, CRAFT_SHAPE, Some(v), Some(l)) => crate::craft::payload_for_shape(v, l, self.aux[0] as usize, self.seed),
             _ => gen_payload(self.class, self.len, self.gen, self.seed),
         }
+    }
+    /// Jobs whose payload has to be searched for (CRAFT_DARK) are turned into jobs with an explicit payload, once, on
+    /// the worker thread. None = the search did not reach the target (recorded by the caller, not a verdict).
+    pub fn materialise(&self) -> Option<Job> {
+        if self.aux[3] != CRAFT_DARK || self.payload.is_some() {
+            return Some(self.clone());
+        }
+        let (v, l, m) = (self.version?, self.level?, self.mask?);
+        let p = crate::craft::payload_for_dark_count(v, l, m, self.aux[0] as usize, self.seed, 3_000)?;
+        let mut j = self.clone();
+        j.len = p.len();
+        j.payload = Some(p);
+        Some(j)
+    }
+    /// byte-mode job at a forced (version, level, mask) whose final symbol has exactly `k` dark modules
+    pub fn dark_count(fam: &'static str, k: usize, v: usize, level: usize, mask: usize, seed: u64) -> Job {
+        Job { fam, class: 2, mode: Some(2), level: Some(level), version: Some(v), mask: Some(mask), len: oracle::tables::capacity(v, level, 2), gen: 0, seed, aux: [k as i64, 0, 0, CRAFT_DARK], payload: None }
+    }
+    /// (version, k) pairs for which a dark-module count of k is within reach: multiples of 4096 and powers of two
+    pub fn dark_count_cells() -> Vec<(usize, usize)> {
+        vec![(1, 256), (8, 1024), (12, 2048), (13, 2048), (18, 4096), (19, 4096), (18, 4096), (27, 8192), (26, 8192), (35, 12288), (34, 12288), (40, 16384)]
     }
     /// byte-mode job at a forced (version, level) whose payload is crafted (kind = CRAFT_TARGET / CRAFT_SHAPE)
     pub fn crafted(fam: &'static str, kind: i64, which: usize, v: usize, level: usize, mask: Option<usize>, seed: u64) -> Job {
